@@ -42,3 +42,4 @@ meta={"seed":id_,"breaks_property":prop,"needs_to_manifest":notes.strip()[:1200]
 json.dump(meta,open(f'/verif/seeded/{id_}/meta.json','w'),ensure_ascii=False,indent=1)
 print("detected" if int(c)==1 and m else "MISSED")
 PY
+cd /verif && tools/extract.py >/dev/null 2>&1   # Gen/ back to the unchanged tree
